@@ -71,8 +71,8 @@ def parseOp? (op : String) (args : List String) : Option Op :=
   | "mulvec", [a, o, n] => do some (.mulVec (← parseMeta? a) (← parseMeta? o) (← parseNat? n))
   | "mtaelt", [r, al, a, b, o] => do
     some (.mtaElt (← parseBool? r) (← parseAlias? al) (← parseMeta? a) (← parseMeta? b) (← parseMeta? o))
-  | "mtasc", [a, o, re, im] => do
-    some (.mtaScalar (← parseMeta? a) (← parseMeta? o) (← parseSD? re) (← parseSD? im))
+  | "mtasc", [al, a, o, re, im] => do
+    some (.mtaScalar (← parseAlias? al) (← parseMeta? a) (← parseMeta? o) (← parseSD? re) (← parseSD? im))
   | "mtavec", [al, a, o, n] => do
     some (.mtaVec (← parseAlias? al) (← parseMeta? a) (← parseMeta? o) (← parseNat? n))
   | "rescale", [a] => do some (.rescale (← parseMeta? a))
